@@ -1,0 +1,28 @@
+//go:build verif
+
+package db
+
+// Verification hooks (build tag verif): every durable write of the LevelDB backend
+// reports itself *before* it is performed, so that a conformance harness can count
+// durable writes, log them, and stop the process between any two of them
+// (crash-point enumeration). With the tag off verifWrite/verifOpen are empty.
+
+// VerifWriteHook is called before each durable write: db is the *GoLevelDB, kind is
+// Set/SetSync/Delete/DeleteSync/BatchWrite/TxCommit, key the written key (nil for
+// batches) and n the number of operations in the write.
+var VerifWriteHook func(db interface{}, kind string, key []byte, n int)
+
+// VerifOpenHook is called when a LevelDB database has been opened.
+var VerifOpenHook func(db interface{}, path string)
+
+func verifWrite(db interface{}, kind string, key []byte, n int) {
+	if h := VerifWriteHook; h != nil {
+		h(db, kind, key, n)
+	}
+}
+
+func verifOpen(db interface{}, path string) {
+	if h := VerifOpenHook; h != nil {
+		h(db, path)
+	}
+}
